@@ -389,10 +389,17 @@ func (e *Engine) doPanic(st *State, v Value, msg string) {
 // unwind performs one step of panic unwinding.
 func (e *Engine) unwind(st *State) {
 	fr := st.top()
+	st.Panicking.Hold = 0
 	if n := len(fr.Defers); n > 0 {
 		d := fr.Defers[n-1]
 		fr.Defers = fr.Defers[:n-1]
+		before := len(st.Frames)
 		e.invoke(st, d.Fn, d.Args, -1, true)
+		if st.Panicking != nil && len(st.Frames) > before {
+			// the deferred function runs (it may recover); unwinding goes
+			// on when it has returned
+			st.Panicking.Hold = len(st.Frames)
+		}
 		return
 	}
 	if fr.Catch {
@@ -464,7 +471,7 @@ func (e *Engine) step(st *State) {
 			}
 		}
 	}()
-	if st.Panicking != nil {
+	if st.Panicking != nil && !(st.Panicking.Hold > 0 && len(st.Frames) >= st.Panicking.Hold) {
 		e.unwind(st)
 		return
 	}
